@@ -519,7 +519,8 @@ class Reference(object):
         self.comment = ""
 
     def __eq__(self, other):
-        return (isinstance(other, Reference) and self.authors == other.authors
+        # (as Biopython 1.88: attribute access on whatever it is compared with)
+        return (self.authors == other.authors
                 and self.consrtm == other.consrtm and self.title == other.title
                 and self.journal == other.journal and self.medline_id == other.medline_id
                 and self.pubmed_id == other.pubmed_id and self.comment == other.comment
